@@ -89,7 +89,7 @@ pub fn cmd_worker(args: &Args) -> i32 {
         let bytes = sp.bytes_of(&c);
         let changed = bytes != sp.bases[c.base].bytes || c.faults.iter().any(|f| matches!(f, Fault::Io { .. }));
         let t_case = Instant::now();
-        let (mut v, mut peak) = exec_case(&file, &dir, &bytes, &c, budget_for(bytes.len()), None);
+        let (mut v, mut peak) = exec_case(&file, &dir, &bytes, &c, budget_for(bytes.len()) + if c.multi != 0 { 64 * sp.bases[c.base].bytes.len() } else { 0 }, Some(&sp.bases[c.base].bytes));
         if std::env::var_os("JBSIM_SLOW").is_some() && t_case.elapsed().as_millis() > 100 {
             eprintln!("SLOW case {} {}ms kind={} bytes={}", idx, t_case.elapsed().as_millis(), c.kind(), bytes.len());
         }
@@ -100,7 +100,7 @@ pub fn cmd_worker(args: &Args) -> i32 {
             for k in 1..4u64 {
                 let mut c2 = c.clone();
                 c2.hash_seed = c.hash_seed.wrapping_add(k.wrapping_mul(0x9E37_79B9_7F4A_7C15));
-                let (v2, p2) = exec_case(&file, &dir, &bytes, &c2, budget_for(bytes.len()), None);
+                let (v2, p2) = exec_case(&file, &dir, &bytes, &c2, budget_for(bytes.len()) + if c.multi != 0 { 64 * sp.bases[c.base].bytes.len() } else { 0 }, Some(&sp.bases[c.base].bytes));
                 peak = peak.max(p2);
                 if matches!(v2, Verdict::Panic(_)) {
                     v = v2;
@@ -152,7 +152,7 @@ pub fn cmd_exec_file(args: &Args) -> i32 {
     // the marker goes to stdout's fd so the parent sees "ALLOC n"
     let _ = marker;
     crate::alloc::set_marker_fd(1);
-    let (v, peak) = exec_case(&file, &dir, &bytes, &c, budget_for(bytes.len()), Some(&good));
+    let (v, peak) = exec_case(&file, &dir, &bytes, &c, budget_for(bytes.len()) + if c.multi != 0 { 64 * good.len() } else { 0 }, Some(&good));
     match v {
         Verdict::Ok => {
             println!("RESULT ok peak={}", peak);
@@ -175,10 +175,12 @@ fn case_from_body(body: &[String], env: &mut Env) -> Option<(Case, Vec<u8>, Vec<
     let mut hash_seed = 0u64;
     let mut faults = Vec::new();
     let mut after_good = false;
+    let mut multi = 0u8;
     for l in body {
         let (k, v) = l.split_once(' ')?;
         match k {
             "sequence" => after_good = v == "valid-file-loaded-first-then-replaced-in-place",
+            "paths" => multi = if v == "valid-file-first" { 1 } else if v == "valid-file-last" { 2 } else { 0 },
             "base" => base = VoiceRef::from_text(v),
             "other" => other = VoiceRef::from_text(v),
             "hash_seed" => hash_seed = v.parse().ok()?,
@@ -195,13 +197,16 @@ fn case_from_body(body: &[String], env: &mut Env) -> Option<(Case, Vec<u8>, Vec<
     for f in &faults {
         cur = apply(&cur, &o, f);
     }
-    Some((Case { base: 0, faults, hash_seed, after_good }, cur, b))
+    Some((Case { base: 0, faults, hash_seed, after_good, multi }, cur, b))
 }
 
 fn body_of(sp: &CaseSpace, c: &Case) -> Vec<String> {
     let mut v = vec![format!("base {}", sp.bases[c.base].vref.to_text()), format!("other {}", sp.bases[(c.base + 1) % sp.bases.len()].vref.to_text()), format!("hash_seed {}", c.hash_seed)];
     if c.after_good {
         v.push("sequence valid-file-loaded-first-then-replaced-in-place".to_string());
+    }
+    if c.multi != 0 {
+        v.push(format!("paths {}", if c.multi == 1 { "valid-file-first" } else { "valid-file-last" }));
     }
     for f in &c.faults {
         v.push(format!("fault {}", f.to_text()));
